@@ -332,7 +332,8 @@ TKStart ==
   /\ IF status = "closed" \/ ~(Has /\ entry.sub)
        THEN Go("TK", "done")                         \* closed, or no subscribed channel with duties: nothing to do
        ELSE Go("TK", "tkalive")                      \* snapshot taken, parked in the alive callback
-  /\ UNCHANGED <<ops, async, loc, entry, ctr, closedGens, hubE, brokerSub, jobs, pres, status, closeReq, closing, settled, established, jl, cbs, out>>
+  /\ loc' = [loc EXCEPT !["TK"].tgen = entry.gen]
+  /\ UNCHANGED <<ops, async, entry, ctr, closedGens, hubE, brokerSub, jobs, pres, status, closeReq, closing, settled, established, jl, cbs, out>>
   /\ Step("TK", "TickStart")
 
 TKCheck ==          \* closing? channel still present (by name)? then AddPresence
@@ -410,6 +411,24 @@ C08 == /\ Count(cbs, "disc") <= 1
 \* C26: local interest implies broker subscription (outside the addSubscription critical section)
 C26_Safe  == (hubE # 0 /\ NoBsub) => brokerSub
 C26_Exact == (Quiescent /\ jobs = 0) => (brokerSub <=> hubE # 0)
+
+(* Witness predicates: "this scenario never happens". TLC's counterexample to each is a shortest behaviour that
+   reaches the scenario; the runner replays every witness on the real code in every run, whatever the seed. *)
+W_TickAfterResubscribe == ~(step.act = "TickAdd" /\ Has /\ entry.sub /\ loc["TK"].tgen # entry.gen)
+W_LeaveBeforeJoin      == ~(\E i \in 1..Len(jl) : jl[i].k = "leave" /\ ~\E j \in 1..(i - 1) : jl[j].k = "join" /\ jl[j].g = jl[i].g)
+W_CloseDuringSubscribe == ~(step.act = "Commit" /\ status = "closed" /\ pc["CS"] = "done")
+W_UnsubscribeWaited    == ~(step.act = "UnsubProceed" /\ \E t \in {"CU", "SU", "CL"} : step.thr = t /\ loc[t].wait /\ loc[t].rgen # 0)
+W_ReservationLost      == ~(step.act \in {"Commit", "PresenceCommit"} /\ established = 0 /\ status = "connected" /\ ~Has /\ (pc["CS"] = "done" \/ pc["SS"] = "done") /\ hubE = 0 /\ ctr = 1 /\ closeReq)
+W_StaleTickPresence    == ~(Quiescent /\ status = "closed" /\ pres)
+W_ResubscribeBeforeJob == ~(jobs > 0 /\ hubE # 0 /\ ctr = 2)
+
+WOps1 == {{"SS", "SU", "CS", "TK"}}
+WOps2 == {{"CS", "SU"}, {"SS", "CL"}}
+WOps3 == {{"CS", "CL"}}
+WOps4 == {{"CS", "CU"}, {"SS", "SU"}}
+WOps5 == {{"CS", "SU"}}
+WOps6 == {{"SS", "CU", "CS", "CL", "TK"}}
+WOps7 == {{"SS", "SU", "CS"}}
 
 View == <<ops, async, pc, loc, entry, ctr, closedGens, hubE, brokerSub, jobs, pres, status, closeReq, closing, settled, established, jl, cbs, out>>
 =============================================================================
